@@ -79,12 +79,16 @@ def trees(tier, seed):
         if not leaves and not subs:
             leaves = (("l0", rnd.choice(LEAF_KINDS), 1),)
         return (leaves, subs)
+    systematic = len(out)
     for _ in range(n):
         out.append(rand_tree(rnd.randint(1, 3)))
-    for t in out:
+    forms = ((False, "ctor"), (True, "ctor"), (True, "func"), (False, "func2"), (False, "ctor+func"), (True, "func3"),
+             (True, "ctor+copy"), (True, "ctor+mul"))
+    for k, t in enumerate(out):
+        # systematic trees: every flip form; random trees: the three basic forms and one of the compound ones
+        use = forms if k < systematic else forms[:3] + (forms[3 + k % 5],)
         for port in (True, False):
-            for flipped in ((False, "ctor"), (True, "ctor"), (True, "func"), (False, "func2"), (False, "ctor+func"),
-                            (True, "func3"), (True, "ctor+copy"), (True, "ctor+mul")):
+            for flipped in use:
                 for role in roles_:
                     yield (t, port, flipped, role)
 
